@@ -506,6 +506,7 @@ Inductive op :=
 | OHeartbeat (w n : N)
 | OAdvance (d : Z)
 | OSweep
+| OSetStatus (w : N) (st : wstatus)      (* status written from outside: sync_from_raft / k8s pod watcher *)
 | OPlanDeploy (spec : list pspec) (word : list N)
 | OCommitDeploy (k : nat) (outs : list bool)
 | OPlanTeardown (g : N)
@@ -549,6 +550,7 @@ Definition step (s : sys) (o : op) : sys * res :=
   | OHeartbeat w n => let '(c', b) := heartbeat c w n in (mkS c' (pend s), RBool b)
   | OAdvance d => (mkS (advance c d) (pend s), RUnit)
   | OSweep => let '(c', l) := sweep c in (mkS c' (pend s), RSweep l)
+  | OSetStatus w st => (mkS (upd_worker c w (w_set_status st)) (pend s), RUnit)
   | OPlanDeploy spec word =>
     match plan_deploy c word spec with
     | (inl e, c') => (mkS c' (pend s ++ [None]), RErr e)
